@@ -59,6 +59,12 @@ def thr2(r, K):
     return Fraction(float(r)) ** 2 * (1 << (2 * K))
 
 
+def ifloor(fr):
+    """squared distances are integers, so d <= T  <=>  d <= floor(T)  and  T < d  <=>  floor(T) < d:
+    thresholds are handed to Coq as integers (keeps the comparisons cheap)"""
+    return Fraction(fr.numerator // fr.denominator)
+
+
 def chord(ang):
     return impl.AngularDistances(np.atleast_1d(ang)).to_3d()
 
@@ -84,9 +90,10 @@ def make_cfg(ang_min, ang_max, weight_scale, weight_res, K):
     if weight_scale is not None:
         mids = np.sqrt(ang_bins[:-1] * ang_bins[1:])
         alpha = [float(x) for x in mids ** weight_scale]
-    return dict(grid=[thr2(r, K) for r in grid_r], angs=[float(a) for a in ang_bins], alpha=alpha,
+    return dict(grid=[ifloor(thr2(r, K)) for r in grid_r], angs=[float(a) for a in ang_bins], alpha=alpha,
                 lims=[(float(a), float(b)) for a, b in lims],
-                thr=[(thr2(chord(a)[0], K), thr2(chord(b)[0], K)) for a, b in lims]), ang_bins
+                thr=[(ifloor(thr2(chord(a)[0], K)), ifloor(thr2(chord(b)[0], K))) for a, b in lims],
+                exact=[thr2(r, K) for r in grid_r] + [thr2(chord(x)[0], K) for ab in lims for x in ab]), ang_bins
 
 
 def d2(p, q):
@@ -174,7 +181,7 @@ def run_l1(ctx):
         with np.errstate(divide="ignore"):
             cfg, ang_bins = make_cfg(np.asarray(amin), np.asarray(amax), ws, wres, K)
         d2s = [d2(p, q) for p in A for q in B]
-        allthr = cfg["grid"] + [t for lh in cfg["thr"] for t in lh]
+        allthr = cfg["exact"]
         if near_tie(d2s, allthr):
             ctx.bump("near_tie_skipped")
             continue
@@ -353,7 +360,12 @@ def run_l3_case(ctx, spec, cid, terms, metas):
     cfgs, theta_hi = [], []
     for b in range(spec["nbins"]):
         amin, amax = cfg.scales.scales.get_angle_radian(zmid[b], cosmology=cfg.cosmology)
-        cb, _ = make_cfg(np.asarray(amin), np.asarray(amax), cfg.scales.rweight, cfg.scales.resolution, K)
+        wres = cfg.scales.resolution
+        if wres is None:  # the counting function's own default applies
+            import inspect
+            from yaw.catalog.trees import AngularTree
+            wres = inspect.signature(AngularTree.count).parameters["weight_res"].default
+        cb, _ = make_cfg(np.asarray(amin), np.asarray(amax), cfg.scales.rweight, wres, K)
         cfgs.append(cb)
         theta_hi.append([float(x) for x in np.atleast_1d(amax)])
     ns = len(rmaxs)
@@ -368,7 +380,7 @@ def run_l3_case(ctx, spec, cid, terms, metas):
             A_b = [o for o in O1 if o[2] == b + 1]
             B_b = [o for o in O2 if (o[2] == b + 1 or not binned2)]
             dd = [(d2(a[0], q[0]), a, q) for a in A_b for q in B_b]
-            allthr = cfgs[b]["grid"] + [t for lh in cfgs[b]["thr"] for t in lh]
+            allthr = cfgs[b]["exact"]
             if near_tie([d for d, _, _ in dd], allthr):
                 tie = True
                 break
